@@ -17,7 +17,7 @@ def program_of(hist):
     for o in hist:
         t = o["t"]
         if t == "cfg":
-            cfg = {"kinds": o["kinds"], "nonce": o["nonce"], "nent": o["nent"], "nworld": o["nworld"], "neworld": o["neworld"]}
+            cfg = {"kinds": o["kinds"], "nonce": o["nonce"], "nent": o["nent"], "nworld": o["nworld"], "neworld": o["neworld"], "hier": o.get("hier", 0)}
         elif t == "drv":
             steps.append({"kind": o["kind"], "ops": []})
         elif t == "run":
@@ -32,7 +32,7 @@ def program_of(hist):
     n = max(scripts) if scripts else 0
     sl = [scripts.get(i, {"ops": [], "err": False, "notake": False, "take2": False}) for i in range(1, n + 1)]
     for s in steps:
-        if s["kind"] not in ("ops", "frame"):
+        if s["kind"] not in ("ops", "frame", "direct"):
             s.pop("ops")
     return {"cfg": cfg, "steps": steps, "scripts": sl}
 
